@@ -62,14 +62,14 @@ type Op struct {
 }
 
 type Plan struct {
-	Idx   int        `json:"idx"`
-	Procs int        `json:"procs"`
+	Idx   int `json:"idx"`
+	Procs int `json:"procs"`
 	// Filler entries live outside the base realm of all views: invisible to every
 	// operation, but the store's scans (iterate / deletePrefix walk the whole shared
 	// map under its lock) take longer, which widens the windows in which operations overlap.
-	Filler int `json:"filler"`
-	Views []ViewSpec `json:"views"`
-	G     [][]Op     `json:"g"`
+	Filler int        `json:"filler"`
+	Views  []ViewSpec `json:"views"`
+	G      [][]Op     `json:"g"`
 }
 
 var realms = []string{"", "a", "ab"}
@@ -998,6 +998,10 @@ func child(c *vf.Ctx) {
 	start, _ := strconv.Atoi(c.ChildArgs[0])
 	count, _ := strconv.Atoi(c.ChildArgs[1])
 	switch c.Child {
+	case "bulk":
+		childBulk(c, start, count, false)
+	case "bulkrace":
+		childBulk(c, start, count, true)
 	case "plain":
 		childPlain(c, start, count)
 	case "race":
@@ -1102,6 +1106,32 @@ func runRaceChildren(c *vf.Ctx, total, nChildren int, seed int64) {
 	})
 }
 
+func runBulkChildren(c *vf.Ctx, total, nChildren int, race bool, seed int64) {
+	per := (total + nChildren - 1) / nChildren
+	name := "bulk"
+	if race {
+		name = "bulkrace"
+	}
+	vf.Parallel(nChildren, nChildren, func(i int) {
+		start := i * per
+		if race {
+			start += 1000000
+		}
+		res := c.RunChild(vf.ChildOpts{Name: name, Race: race, Seed: seed, Args: []string{strconv.Itoa(start), strconv.Itoa(per)}, Timeout: time.Duration(c.Pick(10, 45)) * time.Minute})
+		if race {
+			c.ReportRaces(res.Races, "hive.go/kvstore")
+		}
+		switch {
+		case res.Deadlock:
+			c.Violation("deadlock", fmt.Sprintf("Go runtime reported 'all goroutines are asleep' during large-operation round %s", res.LastMark), map[string]any{"bulk": bulkPlanFor(c, atoi(strings.TrimPrefix(res.LastMark, "bulk "))), "fatal": "deadlock"})
+		case res.TimedOut:
+			hung(c, res, name+" child")
+		case res.ExitCode != 0 && len(res.Races) == 0:
+			c.Violation(crashFP(res.Fatal), fmt.Sprintf("%s child died (%s) during large-operation round %s", name, res.Fatal, res.LastMark), map[string]any{"bulk": bulkPlanFor(c, atoi(strings.TrimPrefix(res.LastMark, "bulk "))), "fatal": res.Fatal})
+		}
+	})
+}
+
 func replay(c *vf.Ctx) {
 	raw, err := os.ReadFile(c.Replay)
 	if err != nil {
@@ -1111,10 +1141,11 @@ func replay(c *vf.Ctx) {
 	var top struct {
 		Seed   int64 `json:"seed"`
 		Replay struct {
-			Report   string `json:"report"`
-			Deadlock bool   `json:"deadlock"`
-			Plan     *Plan  `json:"plan"`
-			History  []Rec  `json:"history"`
+			Report   string    `json:"report"`
+			Bulk     *BulkPlan `json:"bulk"`
+			Deadlock bool      `json:"deadlock"`
+			Plan     *Plan     `json:"plan"`
+			History  []Rec     `json:"history"`
 		} `json:"replay"`
 	}
 	if err := json.Unmarshal(raw, &top); err != nil {
@@ -1123,9 +1154,12 @@ func replay(c *vf.Ctx) {
 	}
 	rp := top.Replay
 	switch {
+	case rp.Bulk != nil:
+		replayBulk(c, *rp.Bulk)
 	case rp.Report != "":
 		// a race report: re-run the race workload of the recorded seed
 		runRaceChildren(c, c.Pick(3000, 60000), 2, top.Seed)
+		runBulkChildren(c, c.Pick(24, 300), 1, true, top.Seed)
 	case len(rp.History) > 0:
 		// 1. the recorded history is decided again (deterministic)
 		v := checkHistory(rp.History)
@@ -1173,7 +1207,18 @@ func run(c *vf.Ctx) {
 	wg.Add(2)
 	go func() { defer wg.Done(); runPlainChildren(c, nPlain, c.Pick(4, 5)) }()
 	go func() { defer wg.Done(); runRaceChildren(c, nRace, c.Pick(2, 4), c.Seed) }()
+	nBulk, nBulkRace := c.Pick(150, 3000), c.Pick(24, 300)
+	wg.Add(2)
+	go func() { defer wg.Done(); runBulkChildren(c, nBulk, c.Pick(1, 3), false, c.Seed) }()
+	go func() { defer wg.Done(); runBulkChildren(c, nBulkRace, c.Pick(1, 2), true, c.Seed) }()
 	wg.Wait()
+	c.Require("bulk_rounds", nBulk*9/10)
+	c.Require("bulk_race_rounds", nBulkRace*9/10)
+	c.Require("bulk_writer_mutations_overlapping_large_op", nBulk*50)
+	c.Require("bulk_single_writer_checks", nBulk*500)
+	for _, s := range bulkSizes {
+		c.Require("bulk_commits_of_size_"+strconv.Itoa(s), nBulk/8)
+	}
 	c.Require("histories", nPlain*9/10)
 	c.Require("race_histories", nRace*9/10)
 	c.Require("overlapping_pairs", nPlain)
